@@ -59,15 +59,22 @@ def run(ctx):
                 j["order"] = ""
         elif j["order"].startswith("unselected"):
             # an ordering key need not be selected: an aggregate that is not in the select list, or (below, query B) the grouping key itself
-            j["unsel"] = "key" if len(j["keys"]) == 1 and rng.random() < 0.5 else "count"
-            if j["unsel"] == "count":
+            j["unsel"] = "key" if len(j["keys"]) == 1 and rng.random() < 0.4 else rng.choice(["count", "aggcol", "aggcol"])
+            free = [c for c in ("size", "hardlinks", "length(name)") if c not in j["keys"] and all(c != c2 for _, c2, _w in j["aggs"])]
+            if j["unsel"] == "aggcol" and not free:
+                j["unsel"] = "count"
+            if j["unsel"] == "aggcol":
+                # an aggregate over a column that appears nowhere else in the query
+                j["unsel_col"], j["unsel_fn"] = rng.choice(free), rng.choice(["sum", "max", "min"])
+                ob = " order by %s(%s)%s" % (j["unsel_fn"], j["unsel_col"], " desc" if desc else "")
+            elif j["unsel"] == "count":
                 j["aggs"] = [x for x in j["aggs"] if x[0] != "count"] or [("sum", "size", None)]
                 sel = j["keys"] + [spell(a, c, w) for a, c, w in j["aggs"]]
                 ob = " order by count(*)%s" % (" desc" if desc else "")
             else:
                 ob = " order by %s%s" % (j["keys"][0], " desc" if desc else "")
         rows, r = qlib.select(ctx.impl, ", ".join(sel), tail + ob, cwd=ctx.scratch, ncols=len(sel))
-        base_cols = sorted({c for _, c, _w in j["aggs"] if c != "*"}) or ["size"]
+        base_cols = sorted({c for _, c, _w in j["aggs"] if c != "*"} | ({j["unsel_col"]} if j.get("unsel_col") else set())) or ["size"]
         raw, r0 = qlib.select(ctx.impl, ", ".join(j["keys"] + base_cols), "from %s %s" % (j["root"], j["where"]), cwd=ctx.scratch, ncols=len(j["keys"]) + len(base_cols))
         # ungrouped aggregates of the same query, from the binary itself (conservation)
         ung, r1 = qlib.select(ctx.impl, "count(*), sum(size)", "from %s %s" % (j["root"], j["where"]), cwd=ctx.scratch, ncols=2)
@@ -150,6 +157,12 @@ def run(ctx):
             pairs = [(-fnum(x[j["order_idx"]]), keyf(x[0])) for x in rows]
             if pairs != sorted(pairs):
                 bad_order = "group rows are not sorted by (aggregate desc, key): %s" % [(x[j["order_idx"]], x[0]) for x in rows][:12]
+        elif j["order"].startswith("unselected") and j["unsel"] == "aggcol":
+            ci = base_cols.index(j["unsel_col"])
+            f_ = {"sum": sum, "max": max, "min": min}[j["unsel_fn"]]
+            vs = [f_(int(m[ci]) for m in groups[tuple(x[:nk])]) for x in rows]
+            if vs != sorted(vs, reverse=rev):
+                bad_order = "ordered by %s(%s), which appears nowhere else in the query, the groups' values come out as %s" % (j["unsel_fn"], j["unsel_col"], vs[:12])
         elif j["order"].startswith("unselected"):
             cnt = [len(groups[tuple(x[:nk])]) for x in rows]
             if cnt != sorted(cnt, reverse=rev):
@@ -166,6 +179,10 @@ def run(ctx):
                 ks_, vecs = [("KNum", not rev)], [[x[j["order_idx"]]] for x in rows]
             elif j["order"] == "agg_then_key":
                 ks_, vecs = [("KNum", False), (kd(j["keys"][0]), True)], [[x[j["order_idx"]], x[0]] for x in rows]
+            elif j["order"].startswith("unselected") and j["unsel"] == "aggcol":
+                ci_ = base_cols.index(j["unsel_col"])
+                f2_ = {"sum": sum, "max": max, "min": min}[j["unsel_fn"]]
+                ks_, vecs = [("KNum", not rev)], [[str(f2_(int(m[ci_]) for m in groups[tuple(x[:nk])]))] for x in rows]
             else:
                 ks_, vecs = [("KNum", not rev)], [[str(len(groups[tuple(x[:nk])]))] for x in rows]
             import re as _re
@@ -201,6 +218,6 @@ Fixpoint sorted_le (ks : list (kind * bool)) (l : list (list str)) : bool :=
     replay_generic_known(ctx, 'C08')
     ctx.coverage.update(
         evaluations=len(jobs), distinct_nontrivial=len(st["distinct"]), traces_validated_against_impl=st["agreed"],
-        rule="random trees x grouping keys from ext, dir, is_dir, mode, uid, length(name) and pairs x 1-3 aggregates (plain, or wrapped in an ordinary function: abs(sum(..)), concat(count(*), ..)) x optional WHERE x optional ORDER BY (asc/desc) on the key, on any aggregate (by name or position), on (aggregate desc, key), or on a key / aggregate that is NOT selected: one row per distinct key value among the matching entries; ordered rows are also judged by the model comparator (model.Criteria.crit_le evaluated by coqc); (from the same query without aggregates), each group's aggregates = exact aggregates of its members, group COUNTs and SUMs add up to the ungrouped COUNT and SUM of the binary, ordered when requested. non-trivial = at least two groups",
+        rule="random trees x grouping keys from ext, dir, is_dir, mode, uid, length(name) and pairs x 1-3 aggregates (plain, or wrapped in an ordinary function: abs(sum(..)), concat(count(*), ..)) x optional WHERE x optional ORDER BY (asc/desc) on the key, on any aggregate (by name or position), on (aggregate desc, key), or on a key / aggregate that is NOT selected (incl. an aggregate over a column that appears nowhere else in the query): one row per distinct key value among the matching entries; ordered rows are also judged by the model comparator (model.Criteria.crit_le evaluated by coqc); (from the same query without aggregates), each group's aggregates = exact aggregates of its members, group COUNTs and SUMs add up to the ungrouped COUNT and SUM of the binary, ordered when requested. non-trivial = at least two groups",
         samples=st["samples"], distribution=dict(st["hist"]))
     return ctx.finish(trusted=["group rows are compared as a set unless ORDER BY is given (HashMap iteration order)"])
